@@ -11,13 +11,17 @@ from checks import enginelib as E
 from checks.enginelib import charts, shrink
 
 THEOREMS = [
+    ("UscxmlVerif.Properties.C01.selection_conflict_free_w3c_of_document", "proved", "PARTIAL (pre-emption), with no hypothesis left about the chart: for EVERY well-formed document (root <scxml>, only scxml/state/parallel elements have state-like children, no scxml child), every configuration of real states, every event and every outcome of the conditions, the transitions of real states with real targets that LargeMicroStep selects have pairwise disjoint Appendix D exit sets"),
+    ("UscxmlVerif.Proofs.Subtree.intervalOK_flatten", "proved", "pre-order numbering of flatten: in the flat chart of every well-formed document the descendants of a proper state are exactly the interval after it up to what nextStateAfter finds (resortStates puts the pseudo-states first, so the next proper sibling is the next sibling)"),
+    ("UscxmlVerif.Proofs.Subtree.desc_interval", "proved", "a state is a descendant of j iff its number lies in j's block (j, j + size of j's subtree)"),
+    ("UscxmlVerif.Proofs.Flatten.coherent_flatten", "proved", "flatten of a well-formed document is coherent"),
     ("UscxmlVerif.Properties.C01.selection_conflict_free_w3c", "proved", "PARTIAL (pre-emption, in Appendix D's terms): on every coherent chart numbered in pre-order (decidable hypotheses, evaluated on the generated charts: suite theorem-hypotheses), any two distinct transitions of real states with real targets that LargeMicroStep selects have disjoint exit sets (Appendix D computeExitSet) in every configuration of real states - the selected set is conflict-free as removeConflictingTransitions demands"),
     ("UscxmlVerif.Proofs.Interval.large_domain_eq", "proved", "the engine's transition domain (LargeMicroStep::getTransitionDomain as modelled) is Predicates.cpp's and Appendix D's on coherent charts"),
     ("UscxmlVerif.Proofs.Interval.disjoint_of_not_overlaps", "proved", "exit intervals that do not overlap are disjoint Appendix D exit sets"),
     ("UscxmlVerif.Properties.C01.selection_conflict_free_partial", "proved", "PARTIAL (pre-emption only): for every chart, configuration, event and condition outcome the set of transitions LargeMicroStep selects holds no two distinct transitions with overlapping exit-set intervals. That the step as a whole is Appendix D's is decided by exploration (I = M = S on generated charts)"),
 ]
 FINISH = {"level": "exploration"}   # the refinement Large ⊑ Appendix D is not proved
-LEAN_FILES = ["UscxmlVerif.Properties.C01", "UscxmlVerif.Proofs.Select", "UscxmlVerif.Proofs.Interval", "UscxmlVerif.Proofs.Struct"]
+LEAN_FILES = ["UscxmlVerif.Properties.C01", "UscxmlVerif.Proofs.Select", "UscxmlVerif.Proofs.Interval", "UscxmlVerif.Proofs.Struct", "UscxmlVerif.Proofs.Flatten", "UscxmlVerif.Proofs.Subtree"]
 SUITE = "trace-large"
 
 
